@@ -1273,10 +1273,15 @@ impl VariableIdentifier {
 
     /// Create a new direct variable identifier.
     pub fn new_direct(name: Option<Id>, location: AddressAssignment) -> Self {
+        // The declaration is found at its name or, without one, at its address
+        let span = match &name {
+            Some(name) => name.span.clone(),
+            None => location.position.clone(),
+        };
         VariableIdentifier::Direct(DirectVariableIdentifier {
             name,
             address_assignment: location,
-            span: SourceSpan::default(),
+            span,
         })
     }
 
